@@ -16,8 +16,8 @@ FUNCTIONS = [
     "GCodeBuilder.set_feed_rate/set_tool_power/tool_on/power_on/set_fan_speed/set_*_temperature/"
     "sleep/move/rapid/move_absolute/probe/set_axis/auto_home/halt/tool_change",
 ]
-BOUNDS = ("STRUCTURE of every line, numeric rendering under contract. Cell grid: 24 emitting call "
-          "shapes (incl. int arguments, and numpy scalars np.float32/np.float16/np.int64 as concrete "
+BOUNDS = ("STRUCTURE of every line, numeric rendering under contract. Cell grid: 28 emitting call "
+          "shapes (some with a user comment=) (incl. int arguments, and numpy scalars np.float32/np.float16/np.int64 as concrete "
           "enumerated values) x formatter configuration {decimal places 0,1,5,8,12} x comment style "
           "{;, (} x line ending {LF, CRLF} x axis relabelling {default, X->A Y->B Z->U} (quick: 6 "
           "configurations). Solver over: all numeric arguments (reals, NaN, +-inf; ints). Checked: "
@@ -79,6 +79,14 @@ def _emitters():
                           lambda a, b, n: {"X": a, "E": b, "G": "G92"}, "ff")
     E["auto_home(x,y)"] = (lambda g, a, b, n: g.auto_home(x=a, y=b),
                            lambda a, b, n: {"X": a, "Y": b, "G": "G28"}, "ff")
+    E["set_axis(x,comment)"] = (lambda g, a, b, n: g.set_axis(x=a, comment="zero here"),
+                                lambda a, b, n: {"X": a, "G": "G92"}, "f")
+    E["probe(z,comment)"] = (lambda g, a, b, n: g.probe("away", z=a, comment="touch off"),
+                             lambda a, b, n: {"Z": a, "G": "G38.4"}, "f")
+    E["auto_home(y,comment)"] = (lambda g, a, b, n: g.auto_home(y=a, comment="go home"),
+                                 lambda a, b, n: {"Y": a, "G": "G28"}, "f")
+    E["move(x,comment)"] = (lambda g, a, b, n: g.move(x=a, comment="cut"),
+                            lambda a, b, n: {"X": a, "G": "G1"}, "f")
     E["halt(bed,S)"] = (lambda g, a, b, n: g.halt("wait-for-bed", S=a),
                         lambda a, b, n: {"S": a, "M": "M190"}, "f")
     E["move(int x, int F)"] = (lambda g, a, b, n: g.move(x=n, F=n * n),
